@@ -205,6 +205,53 @@ func VerifC20_Overflow() {
 	rt.Reach("overflow-end")
 }
 
+// a context-tracer submission that finds the buffer full while the writer is
+// busy in the middle of a batch (held inside the adapter): it waits, and
+// reaches the adapter exactly once
+func VerifC20_SubmitWithFullBuffer() {
+	rt.SchedYieldOnly(true)
+	c20Start()
+	SetLogLevel(TraceLevel)
+	logBuffer = make(chan *logLine, 2) // shrink the 1024-entry buffer
+	gate := make(chan struct{})
+	held := false
+	inner := adapter
+	adapter = AdapterFunc(func(msg Message, duplicates uint64) {
+		if !held {
+			held = true
+			<-gate // the writer is busy with this line for a while
+		}
+		inner.Write(msg, duplicates)
+	})
+	Info("first")
+	rt.Quiesce(5 * time.Millisecond) // the writer has taken the line and is inside the adapter
+	Info("fill1")
+	Info("fill2")
+	_, tracer := AddTracer(context.Background())
+	tracer.Info("collected")
+	tracer.Warning("main")
+	done := make(chan struct{})
+	go func() {
+		tracer.Submit() // the buffer is full: blocks
+		close(done)
+	}()
+	rt.Quiesce(5 * time.Millisecond)
+	close(gate)
+	<-done
+	rt.Quiesce(time.Second)
+	submissions, lines := 0, 0
+	for _, o := range c20Got {
+		lines += 1 + int(o.duplicates)
+		if o.tracer {
+			submissions++
+			rt.Assert(o.traceLines == 1, "submitfull/submission-carries-its-collected-line")
+		}
+	}
+	rt.Assert(submissions == 1, "submitfull/submission-reaches-the-adapter-exactly-once")
+	rt.Assert(lines == 4, "submitfull/every-line-exactly-once")
+	rt.Reach("submitfull-end")
+}
+
 // ---- O4: Shutdown returns only after everything logged before it was written ----
 
 func VerifC20_Shutdown() {
